@@ -281,6 +281,62 @@ fn source_changes_during_backup(report: &mut Report) {
     }
 }
 
+/// Directed, real code + the independent reader: the disk fills up in the middle of a backup (a 3 MiB tmpfs
+/// mounted by the harness; skipped with a note when mounting is not possible).  The backup may fail — but whatever
+/// it leaves under a block's or hunk's final name must be the whole thing or nothing (a zero-length leftover):
+/// no truncated stub that later backups would take for a stored block.
+fn full_disk_leaves_no_stub(seed: u64, report: &mut Report) {
+    let work = tempfile::tempdir().unwrap();
+    let mnt = work.path().join("mnt");
+    std::fs::create_dir(&mnt).unwrap();
+    let mounted = std::process::Command::new("mount").args(["-t", "tmpfs", "-o", "size=3m", "tmpfs"]).arg(&mnt).status().map(|s| s.success()).unwrap_or(false);
+    if !mounted {
+        report.hit("full-disk:mount-unavailable");
+        report.notes.push("could not mount a small tmpfs (not root?): the full-disk scenario of C13 is skipped".into());
+        return;
+    }
+    let arch = mnt.join("arch");
+    let src = work.path().join("src");
+    std::fs::create_dir(&src).unwrap();
+    let mut x = seed | 1;
+    let mut noise = |n: usize| -> Vec<u8> { (0..n).map(|_| { x ^= x << 13; x ^= x >> 7; x ^= x << 17; (x >> 24) as u8 }).collect() };
+    let kib = 1usize << 10;
+    // many blocks of a few hundred KiB each, all below tokio's 2 MiB chunk: each is written by one write + flush
+    let files: Vec<(String, Vec<u8>)> = (0..12).map(|i| (format!("f{i:02}"), noise(300 * kib + i * 7919))).collect();
+    for (n, b) in &files {
+        std::fs::write(src.join(n), b).unwrap();
+    }
+    crate::real::create_archive(&arch);
+    let p = crate::real::BackupParams { max_entries_per_hunk: 4, max_block_size: 20 << 20, small_file_cap: 16, owner: true, exclude: vec![] };
+    let r = crate::real::real_backup(&arch, &src, &p, crate::icept::IceptConfig::default());
+    let case = json!({"directed": "full disk", "archive_on": "tmpfs size=3m", "source_bytes": files.iter().map(|(_, b)| b.len()).sum::<usize>(), "result": crate::compare::trunc(&r.result)});
+    report.case("full-disk", true);
+    report.hit("directed:full-disk");
+    let expect: BTreeMap<String, Vec<u8>> = files.iter().map(|(n, b)| (format!("/{n}"), b.clone())).collect();
+    for (sig, what) in raw_reader(&arch, 0, &expect) {
+        report.oracle_fail(&sig, case.clone(), "after a backup that ran into a full disk the independent reader of the raw archive files found a violation", what);
+    }
+    // index hunks too: whole or zero-length
+    for h in walk(&arch.join("b0000").join("i")) {
+        let bytes = std::fs::read(&h).unwrap_or_default();
+        if !bytes.is_empty() && crate::absarch::decode_hunk(&bytes).is_none() {
+            report.oracle_fail("format:undecodable-hunk", case.clone(), "a truncated index hunk was left under its final name by a write that failed on a full disk", json!({"hunk": h.to_string_lossy(), "bytes": bytes.len()}));
+        }
+    }
+    let _ = std::process::Command::new("umount").arg(&mnt).status();
+}
+
+fn walk(root: &std::path::Path) -> Vec<std::path::PathBuf> {
+    let mut out = Vec::new();
+    if let Ok(rd) = std::fs::read_dir(root) {
+        for e in rd.flatten() {
+            let p = e.path();
+            if p.is_dir() { out.extend(walk(&p)); } else { out.push(p); }
+        }
+    }
+    out
+}
+
 /// Independent reader working on the RAW files of an archive (no hex state): every block file decompresses and
 /// is stored under / named by the BLAKE2b hash of its content; every FILE entry recorded in version `band` has
 /// addresses inside readable blocks whose bytes are exactly `expect[apath]` (entries for paths not in `expect`
@@ -350,6 +406,7 @@ pub fn raw_reader(arch: &std::path::Path, band: u32, expect: &BTreeMap<String, V
 
 pub fn run(tier: &str, seed: u64, report: &mut Report) {
     source_changes_during_backup(report);
+    full_disk_leaves_no_stub(seed, report);
     let thorough = tier == "thorough";
     big_index(seed, report);
     big_blocks(seed, report);
